@@ -598,6 +598,9 @@ VALUE_EXPRS = [
     ('int', 'Nested.In.ID'),
     ('MyStr', 'MyStr("a" + "b")'),
     ('*int', '&Arr[0]'),
+    ('[]int', 'Sl3[1:3:3]'),        # full slice expression: length and capacity matter
+    ('[]int', 'Sl3[:2]'),
+    ('[]int', 'Arr[1:][:1:2]'),
 ]
 
 
@@ -608,7 +611,7 @@ def family_values():
     specs = []
     decls = (
         'type MyInt int\ntype MyStr string\ntype S struct { ID int; Name string }\ntype In struct{ ID int }\ntype Out struct{ In In }\n'
-        'var Base = vrt.ArgID("base")\nvar PtrS = &S{ID: Base + 100}\nvar Arr = [3]int{Base, Base + 1, 9}\nvar Sl = []int{1, 2}\n'
+        'var Base = vrt.ArgID("base")\nvar PtrS = &S{ID: Base + 100}\nvar Arr = [3]int{Base, Base + 1, 9}\nvar Sl = []int{1, 2}\nvar Sl3 = []int{Base, Base + 1, Base + 2, Base + 3, Base + 4}\n'
         'var Iface interface{} = Base\nvar Nested = Out{In: In{ID: Base + 5}}\n')
     accept = [e for e in VALUE_EXPRS if e[1] != 'len(Sl)']
     for home in ('same', 'other'):
@@ -624,7 +627,7 @@ def family_values():
             def qual(t):
                 return re.sub(r'\b(MyInt|MyStr|S)\b', q + r'\1', t)
             def qexpr(e):
-                return re.sub(r'\b(MyInt|MyStr|S|Base|PtrS|Arr|Sl|Iface|Nested)\b', q + r'\1', e)
+                return re.sub(r'\b(MyInt|MyStr|S|Base|PtrS|Arr|Sl3|Sl|Iface|Nested)\b', q + r'\1', e)
             if home == 'same':
                 wf.append('func Inject%d() %s {\n\tpanic(wire.Build(wire.Value(%s)))\n}\n' % (i, ty, ex))
                 prov.append('var Expected%d %s = %s\n' % (i, ty, ex))
@@ -633,7 +636,9 @@ def family_values():
                 qdecl.append('var Set%d = wire.NewSet(wire.Value(%s))\nvar Expected%d %s = %s\n' % (i, ex, i, ty, ex))
                 wf.append('func Inject%d() %s {\n\tpanic(wire.Build(q.Set%d))\n}\n' % (i, qual(ty), i))
                 exp = 'q.Expected%d' % i
-            if ty.startswith('*'):
+            if ty.startswith('[]'):
+                drv.append('\t{ a, b := Inject%d(), Inject%d(); vrt.A("C13", len(a) == len(b) && cap(a) == cap(b) && &a[0] == &b[0], "a slice-valued wire.Value yields the same slice on every call: %s"); vrt.A("C13", len(a) == len(%s) && cap(a) == cap(%s) && a[0] == %s[0], "wire.Value provides the value of the written expression (length, capacity, elements): %s") }' % (i, i, ex.replace('"', "'"), exp, exp, exp, ex.replace('"', "'")))
+            elif ty.startswith('*'):
                 drv.append('\t{ a, b := Inject%d(), Inject%d(); vrt.A("C13", a == b, "a pointer-valued wire.Value yields the same pointer on every call: %s"); vrt.A("C13", *a == *%s, "wire.Value provides the value of the written expression: %s") }' % (i, i, ex.replace('"', "'"), exp, ex.replace('"', "'")))
             else:
                 drv.append('\t{ a, b := Inject%d(), Inject%d(); vrt.A("C13", a == b, "wire.Value yields the same value on every call: %s"); vrt.A("C13", a == %s, "wire.Value provides the value of the written expression: %s") }' % (i, i, ex.replace('"', "'"), exp, ex.replace('"', "'")))
@@ -909,6 +914,29 @@ def family_frontend():
                          '\t\tvrt.Check(spec, vrt.Outcome{Result: []int{res.ID}, CleanupNil: true})\n\t}\n}\n'),
     }
     specs.append(RawSpec(files, 'injectors in three files (1, 3 and 2 injectors), each file with a set variable / helper of its own', family='frontend', compile_props=['C01', 'C15']))
+    # --- imported packages whose names collide with the names Wire invents (err, err2, cleanup2), package-level err / cleanup
+    def depsrc(pkgname, node):
+        return ('package %s\n\nimport "example.com/corpus/vrt"\n\ntype T%d struct{ ID int }\n\nfunc New(ds ...int) (T%d, func(), error) {\n\tid, err := vrt.Call(%d, true, ds...)\n\tif err != nil {\n\t\treturn T%d{}, vrt.FailedCleanupFn(%d), err\n\t}\n\treturn T%d{ID: id}, vrt.CleanupFn(%d), nil\n}\n'
+                % (pkgname, node, node, node, node, node, node, node))
+    files = {
+        'providers.go': ('package {PKG}\n\nimport (\n\t"example.com/corpus/vrt"\n\tcl "example.com/corpus/{PKG}/cleanup2"\n\te2 "example.com/corpus/{PKG}/err2"\n)\n\nvar err error = &vrt.Err{ID: 99}\nvar cleanup = func() { panic("user cleanup called") }\nvar _ = []interface{}{err, cleanup}\n\ntype App struct{ ID int }\n\n'
+                         'func NewSink(a e2.T1) (cl.T2, func(), error) {\n\treturn cl.New(a.ID)\n}\n\nfunc NewApp(a e2.T1, b cl.T2) (App, error) {\n\tid, err := vrt.Call(0, true, a.ID, b.ID)\n\tif err != nil {\n\t\treturn App{}, err\n\t}\n\treturn App{ID: id}, nil\n}\n\nfunc NewT1() (e2.T1, func(), error) { return e2.New() }\n'),
+        'wire.go': ('//go:build wireinject\n// +build wireinject\n\npackage {PKG}\n\nimport "github.com/google/wire"\n\nfunc Inject() (App, func(), error) {\n\tpanic(wire.Build(NewT1, NewSink, NewApp))\n}\n'),
+        'zz_driver.go': ('//go:build !wireinject\n// +build !wireinject\n\npackage {PKG}\n\nimport "example.com/corpus/vrt"\n\nfunc VDrive() {\n\tfor round := 0; round < 2; round++ {\n\t\tvrt.Round = round\n'
+                         '\t\tspec := &vrt.Spec{RetErr: true, RetCleanup: true, Nodes: []vrt.Node{{Name: "NewApp", Kind: vrt.KFunc, HasErr: true, Params: []vrt.Ref{{Node: 1}, {Node: 2}}}, {Name: "err2.New", Kind: vrt.KFunc, HasErr: true, HasCleanup: true}, {Name: "cleanup2.New", Kind: vrt.KFunc, HasErr: true, HasCleanup: true, Params: []vrt.Ref{{Node: 1}}}}, Result: []vrt.Ref{{Node: 0}}, ArgIDs: make([][]int, 3)}\n'
+                         '\t\tvrt.Reset()\n\t\tres, c, e := Inject()\n\t\tvrt.Check(spec, vrt.Outcome{Result: []int{res.ID}, Err: e, Cleanup: c, CleanupNil: c == nil})\n\t}\n}\n'),
+    }
+    extra = {'err2': {'err2.go': depsrc('err2', 1)}, 'cleanup2': {'cleanup2.go': depsrc('cleanup2', 2)}}
+    specs.append(RawSpec(files, 'providers returning types of packages named err2 and cleanup2, package-level err and cleanup in the injector package', family='frontend', extra_pkgs=extra, compile_props=['C01', 'C14'], naming='adversarial'))
+    files = dict(files)
+    files['wire.go'] = ('//go:build wireinject\n// +build wireinject\n\npackage {PKG}\n\nimport (\n\t"github.com/google/wire"\n\te2 "example.com/corpus/{PKG}/err2"\n)\n\n'
+                        'func InjectDirect() (e2.TB, func(), error) {\n\tpanic(wire.Build(e2.New, e2.NewB, wire.Value([]int{1})))\n}\n')
+    files['providers.go'] = ('package {PKG}\n\nimport "example.com/corpus/vrt"\n\nvar err error = &vrt.Err{ID: 99}\nvar cleanup = func() { panic("user cleanup called") }\nvar _ = []interface{}{err, cleanup}\n')
+    files['zz_driver.go'] = ('//go:build !wireinject\n// +build !wireinject\n\npackage {PKG}\n\nimport "example.com/corpus/vrt"\n\nfunc VDrive() {\n\tfor round := 0; round < 2; round++ {\n\t\tvrt.Round = round\n'
+                             '\t\tspec := &vrt.Spec{RetErr: true, RetCleanup: true, Nodes: []vrt.Node{{Name: "err2.NewB", Kind: vrt.KFunc, HasErr: true, Params: []vrt.Ref{{Node: 1}}}, {Name: "err2.New", Kind: vrt.KFunc, HasErr: true, HasCleanup: true, Params: []vrt.Ref{{Node: -1, Const: 1}}}}, Result: []vrt.Ref{{Node: 0}}, ArgIDs: make([][]int, 2)}\n'
+                             '\t\tvrt.Reset()\n\t\tres, c, e := InjectDirect()\n\t\tvrt.Check(spec, vrt.Outcome{Result: []int{res.ID}, Err: e, Cleanup: c, CleanupNil: c == nil})\n\t}\n}\n')
+    extra2 = {'err2': {'err2.go': depsrc('err2', 1) + '\ntype TB struct{ ID int }\n\nfunc NewB(a T1) (TB, error) {\n\tid, err := vrt.Call(0, true, a.ID)\n\tif err != nil {\n\t\treturn TB{}, err\n\t}\n\treturn TB{ID: id}, nil\n}\n'}}
+    specs.append(RawSpec(files, 'providers called directly from a package named err2 (first imported by this injector, referenced twice), package-level err and cleanup', family='frontend', extra_pkgs=extra2, compile_props=['C01', 'C14'], naming='adversarial'))
     # --- several provider-set variables declared in one var spec
     files = {
         'providers.go': ('package {PKG}\n\nimport (\n\t"example.com/corpus/vrt"\n\t"github.com/google/wire"\n)\n\ntype A struct{ ID int }\ntype B struct{ ID int }\ntype R struct{ ID int }\n\n'
